@@ -20,6 +20,7 @@ import Bmc.Proofs.GenEnc.GetPowerReadingReq
 import Bmc.Proofs.GenEnc.V2Session
 import Bmc.Proofs.GenEnc.AES128CBC
 import Bmc.Proofs.EndToEnd.RequestsC06
+import Bmc.Proofs.EndToEnd.DatagramC06
 #print axioms Bmc.Proofs.C06.packet_parses
 #print axioms Bmc.Proofs.C06.payload_packet_parses
 #print axioms Bmc.Proofs.C06.operation_table
@@ -94,3 +95,4 @@ import Bmc.Proofs.EndToEnd.RequestsC06
 #print axioms Bmc.Proofs.EndToEnd.generated_dcmisensorinfo_request
 #print axioms Bmc.Proofs.EndToEnd.generated_powerreading_enhanced_request
 #print axioms Bmc.Proofs.EndToEnd.generated_powerreading_normal_request
+#print axioms Bmc.Proofs.EndToEnd.generated_sessionless_datagram_parses
